@@ -1,8 +1,6 @@
 package vsql
 
-import (
-	"strings"
-)
+import "strings"
 
 type stmtKind uint8
 
@@ -53,10 +51,8 @@ type stmt struct {
 	vals   []operand // INSERT values
 	sets   []assign
 	where  *cond
-	ret    []int
-	hasRet bool
-	// parameters, indexed by n-1
-	ptypes []*sqlType // inferred type, nil if $n never appears
+	ret    []int      // RETURNING columns
+	ptypes []*sqlType // per parameter (index n-1): inferred type, nil if $n never gets one
 	pcols  []string   // column giving its type to $n, for error messages
 	pnull  []bool     // $n appears in `$n IS NULL`
 }
@@ -67,113 +63,118 @@ func (s *Store) prepare(sql string) (*stmt, error) {
 	if s.PG9SingleColumnRow {
 		key = "pg9:" + sql
 	}
-	if c, ok := s.sc.stmts.Load(key); ok {
-		if st, ok := c.(*stmt); ok {
-			return st, nil
+	c, ok := s.sc.stmts.Load(key)
+	if !ok {
+		if st, err := s.sc.parseStmt(sql, s.PG9SingleColumnRow); err != nil {
+			c = err
+		} else {
+			c = st
 		}
-		return nil, c.(error)
+		s.sc.stmts.Store(key, c)
 	}
-	st, err := s.sc.parseStmt(sql, s.PG9SingleColumnRow)
-	if err != nil {
-		s.sc.stmts.Store(key, err)
-		return nil, err
+	if st, ok := c.(*stmt); ok {
+		return st, nil
 	}
-	s.sc.stmts.Store(key, st)
-	return st, nil
-}
-
-func (sc *schema) parseStmt(sql string, pg9 bool) (*stmt, error) {
-	toks, err := lex(sql)
-	if err != nil {
-		return nil, err
-	}
-	p := &parser{src: sql, toks: toks}
-	st := &stmt{sql: sql}
-	b := &binder{sc: sc, st: st, p: p}
-	switch {
-	case p.acceptKw("insert", "into"):
-		err = b.insert()
-	case p.acceptKw("select"):
-		err = b.selectStmt()
-	case p.acceptKw("update"):
-		err = b.update(pg9)
-	case p.acceptKw("delete", "from"):
-		err = b.delete()
-	case p.acceptKw("copy"):
-		err = b.copyIn()
-	default:
-		err = errf("unsupported statement: %s", oneLine(sql))
-	}
-	if err != nil {
-		return nil, err
-	}
-	p.acceptPunct(";")
-	if p.peek().kind != tEOF {
-		return nil, errf("unsupported statement shape: unexpected %v at offset %d in: %s", p.peek(), p.peek().pos, oneLine(sql))
-	}
-	for i, t := range st.ptypes {
-		if t == nil && st.pnull[i] {
-			return nil, errf("could not determine data type of parameter $%d (only used in IS NULL)", i+1)
-		}
-	}
-	return st, nil
+	return nil, c.(error)
 }
 
 func oneLine(sql string) string { return strings.Join(strings.Fields(sql), " ") }
 
+func (sc *schema) parseStmt(sql string, pg9 bool) (st *stmt, err error) {
+	defer catch(&err)
+	p := &parser{src: sql, toks: lex(sql)}
+	st = &stmt{sql: sql}
+	b := &binder{sc: sc, st: st, parser: p}
+	switch {
+	case p.acceptKw("insert", "into"): // INSERT INTO t (c,...) VALUES ($1,...) [RETURNING c,...]
+		st.kind = stInsert
+		b.table()
+		st.cols = b.columns(p.identList(true, "a column name"), true)
+		p.expectKw("values")
+		st.vals = b.operands(st.cols, "INSERT into")
+		b.returning()
+	case p.acceptKw("select"): // SELECT c,... FROM t [WHERE cond]
+		st.kind = stSelect
+		names := p.identList(false, "a column name")
+		p.expectKw("from")
+		b.table()
+		st.cols = b.columns(names, false)
+		b.where(false)
+	case p.acceptKw("update"): // UPDATE t SET (c,...) = ($1,...) | c = expr,... WHERE cond [RETURNING c,...]
+		st.kind = stUpdate
+		b.table()
+		p.expectKw("set")
+		b.assignments(pg9)
+		b.where(true)
+		b.returning()
+	case p.acceptKw("delete", "from"): // DELETE FROM t WHERE cond [RETURNING c,...]
+		st.kind = stDelete
+		b.table()
+		b.where(true)
+		b.returning()
+	case p.acceptKw("copy"): // COPY "t" ("c",...) FROM STDIN
+		st.kind = stCopy
+		b.table()
+		st.cols = b.columns(p.identList(true, "a column name"), true)
+		p.expectKw("from", "stdin")
+	default:
+		fail("unsupported statement: %s", oneLine(sql))
+	}
+	p.acceptPunct(";")
+	if p.peek().kind != tEOF {
+		fail("unsupported statement shape: unexpected %v at offset %d in: %s", p.peek(), p.peek().pos, oneLine(sql))
+	}
+	for i, t := range st.ptypes {
+		if t == nil && st.pnull[i] {
+			fail("could not determine data type of parameter $%d (only used in IS NULL)", i+1)
+		}
+	}
+	return st, nil
+}
+
+// binder parses the clauses of a statement and resolves names against the schema.
 type binder struct {
+	*parser
 	sc *schema
 	st *stmt
-	p  *parser
 }
 
-func (b *binder) table() error {
-	name, err := b.p.ident("table name")
-	if err != nil {
-		return err
+func (b *binder) table() {
+	name := b.ident("table name")
+	b.st.tbl = b.sc.byName[name]
+	if b.st.tbl == nil {
+		fail("unknown table %q", name)
 	}
-	ta := b.sc.byName[name]
-	if ta == nil {
-		return errf("unknown table %q", name)
+	for b.sc.tables[b.st.ti] != b.st.tbl {
+		b.st.ti++
 	}
-	b.st.tbl = ta
-	for i, t := range b.sc.tables {
-		if t == ta {
-			b.st.ti = i
-		}
-	}
-	return nil
 }
 
-func (b *binder) column(name string) (int, error) {
-	if i, ok := b.st.tbl.idx[name]; ok {
-		return i, nil
+func (b *binder) column(name string) int {
+	i, ok := b.st.tbl.idx[name]
+	if !ok {
+		fail("unknown column %q of table %q", name, b.st.tbl.name)
 	}
-	return 0, errf("unknown column %q of table %q", name, b.st.tbl.name)
+	return i
 }
 
-func (b *binder) columns(names []string, unique bool) ([]int, error) {
-	out := make([]int, len(names))
-	seen := map[int]bool{}
+func (b *binder) columns(names []string, unique bool) []int {
+	out, seen := make([]int, len(names)), map[int]bool{}
 	for i, name := range names {
-		ci, err := b.column(name)
-		if err != nil {
-			return nil, err
+		out[i] = b.column(name)
+		if unique && seen[out[i]] {
+			fail("column %q specified more than once", name)
 		}
-		if unique && seen[ci] {
-			return nil, errf("column %q specified more than once", name)
-		}
-		seen[ci] = true
-		out[i] = ci
+		seen[out[i]] = true
 	}
-	return out, nil
+	return out
 }
 
 // param records a use of $n in a context of type typ (nil: no type information).
-func (b *binder) param(n int, typ *sqlType, col string) error {
+func (b *binder) param(n int, typ *sqlType, col string) {
 	st := b.st
 	if n < 1 {
-		return errf("placeholder $%d out of range: numbering starts at $1", n)
+		fail("placeholder $%d out of range: numbering starts at $1", n)
 	}
 	for len(st.ptypes) < n {
 		st.ptypes, st.pcols, st.pnull = append(st.ptypes, nil), append(st.pcols, ""), append(st.pnull, false)
@@ -184,293 +185,154 @@ func (b *binder) param(n int, typ *sqlType, col string) error {
 	case st.ptypes[n-1] == nil:
 		st.ptypes[n-1], st.pcols[n-1] = typ, col
 	case st.ptypes[n-1].text != typ.text:
-		return errf("inconsistent types deduced for parameter $%d: %s (column %q) versus %s (column %q)",
+		fail("inconsistent types deduced for parameter $%d: %s (column %q) versus %s (column %q)",
 			n, st.ptypes[n-1].text, st.pcols[n-1], typ.text, col)
 	}
-	return nil
 }
 
 // operand reads `$n` or a constant, to be stored in / compared to column ci.
-func (b *binder) operand(ci int) (operand, error) {
+func (b *binder) operand(ci int) operand {
 	col := b.st.tbl.cols[ci]
-	if t := b.p.peek(); t.kind == tParam {
-		b.p.next()
-		return operand{param: t.n}, b.param(t.n, col.typ, col.name)
+	if t := b.peek(); t.kind == tParam {
+		b.next()
+		b.param(t.n, col.typ, col.name)
+		return operand{param: t.n}
 	}
-	lit, ok := b.p.literal()
+	lit, ok := b.literal()
 	if !ok {
-		return operand{}, b.p.unexpected("a placeholder or a constant")
+		b.unexpected("a placeholder or a constant")
 	}
 	val, err := col.typ.fromLiteral(lit)
 	if err != nil {
-		return operand{}, errf("column %q (%s): %v", col.name, col.typ.text, err)
+		fail("column %q (%s): %v", col.name, col.typ.text, err)
 	}
-	return operand{val: val}, nil
+	return operand{val: val}
 }
 
-func (b *binder) operands(cols []int) ([]operand, error) {
-	if err := b.p.expectPunct("("); err != nil {
-		return nil, err
-	}
+// operands reads `( operand, ... )` and checks the count against the target columns.
+func (b *binder) operands(cols []int, what string) []operand {
+	b.expectPunct("(")
 	var out []operand
-	for {
-		if len(out) < len(cols) {
-			op, err := b.operand(cols[len(out)])
-			if err != nil {
-				return nil, err
+	for n := 0; ; n++ {
+		if n < len(cols) {
+			out = append(out, b.operand(cols[n]))
+		} else if _, ok := b.literal(); !ok { // extra values are only counted
+			if b.peek().kind != tParam {
+				b.unexpected("a placeholder or a constant")
 			}
-			out = append(out, op)
-		} else if _, ok := b.p.literal(); ok || b.p.peek().kind == tParam { // extra value: only counted
-			if !ok {
-				b.p.next()
+			b.next()
+		}
+		if !b.acceptPunct(",") {
+			b.expectPunct(")")
+			if n+1 != len(cols) {
+				fail("%s %q has %d target columns but %d values", what, b.st.tbl.name, len(cols), n+1)
 			}
-			out = append(out, operand{})
-		} else {
-			return nil, b.p.unexpected("a placeholder or a constant")
-		}
-		if !b.p.acceptPunct(",") {
-			return out, b.p.expectPunct(")")
+			return out
 		}
 	}
 }
 
-func (b *binder) returning() (err error) {
-	if !b.p.acceptKw("returning") {
-		return nil
+func (b *binder) returning() {
+	if b.acceptKw("returning") {
+		b.st.ret = b.columns(b.identList(false, "a column name after RETURNING"), false)
 	}
-	names, err := b.p.identList(false, "a column name after RETURNING")
-	if err != nil {
-		return err
-	}
-	b.st.hasRet = true
-	b.st.ret, err = b.columns(names, false)
-	return err
 }
 
-func (b *binder) insert() error {
-	b.st.kind = stInsert
-	if err := b.table(); err != nil {
-		return err
-	}
-	names, err := b.p.identList(true, "a column name")
-	if err != nil {
-		return err
-	}
-	if b.st.cols, err = b.columns(names, true); err != nil {
-		return err
-	}
-	if err := b.p.expectKw("values"); err != nil {
-		return err
-	}
-	if b.st.vals, err = b.operands(b.st.cols); err != nil {
-		return err
-	}
-	if len(b.st.vals) != len(b.st.cols) {
-		return errf("INSERT into %q has %d target columns but %d values", b.st.tbl.name, len(b.st.cols), len(b.st.vals))
-	}
-	return b.returning()
-}
-
-func (b *binder) selectStmt() error {
-	b.st.kind = stSelect
-	names, err := b.p.identList(false, "a column name")
-	if err != nil {
-		return err
-	}
-	if err := b.p.expectKw("from"); err != nil {
-		return err
-	}
-	if err := b.table(); err != nil {
-		return err
-	}
-	if b.st.cols, err = b.columns(names, false); err != nil {
-		return err
-	}
-	return b.whereClause(false)
-}
-
-func (b *binder) update(pg9 bool) error {
-	b.st.kind = stUpdate
-	if err := b.table(); err != nil {
-		return err
-	}
-	if err := b.p.expectKw("set"); err != nil {
-		return err
-	}
-	if b.p.isPunct("(") {
-		names, err := b.p.identList(true, "a column name")
-		if err != nil {
-			return err
-		}
-		cols, err := b.columns(names, true)
-		if err != nil {
-			return err
-		}
-		if err := b.p.expectPunct("="); err != nil {
-			return err
-		}
-		vals, err := b.operands(cols)
-		if err != nil {
-			return err
-		}
-		if len(vals) != len(cols) {
-			return errf("UPDATE of %q has %d target columns but %d values", b.st.tbl.name, len(cols), len(vals))
-		}
+func (b *binder) assignments(pg9 bool) {
+	if b.isPunct("(") {
+		names := b.identList(true, "a column name")
+		cols := b.columns(names, true)
+		b.expectPunct("=")
+		vals := b.operands(cols, "UPDATE of")
 		if len(cols) == 1 && !pg9 {
-			return errf("source for a multiple-column UPDATE item must be a sub-SELECT or ROW() expression: "+
+			fail("source for a multiple-column UPDATE item must be a sub-SELECT or ROW() expression: "+
 				"PostgreSQL >= 10 rejects SET (%s) = (...) with a single column", names[0])
 		}
 		for i := range cols {
 			b.st.sets = append(b.st.sets, assign{cols[i], vals[i]})
 		}
-	} else {
-		seen := map[int]bool{}
-		for {
-			name, err := b.p.ident("a column name")
-			if err != nil {
-				return err
-			}
-			ci, err := b.column(name)
-			if err != nil {
-				return err
-			}
-			if seen[ci] {
-				return errf("multiple assignments to same column %q", name)
-			}
-			seen[ci] = true
-			if err := b.p.expectPunct("="); err != nil {
-				return err
-			}
-			op, err := b.operand(ci)
-			if err != nil {
-				return err
-			}
-			b.st.sets = append(b.st.sets, assign{ci, op})
-			if !b.p.acceptPunct(",") {
-				break
-			}
+		return
+	}
+	for seen := map[int]bool{}; ; {
+		name := b.ident("a column name")
+		ci := b.column(name)
+		if seen[ci] {
+			fail("multiple assignments to same column %q", name)
+		}
+		seen[ci] = true
+		b.expectPunct("=")
+		b.st.sets = append(b.st.sets, assign{ci, b.operand(ci)})
+		if !b.acceptPunct(",") {
+			return
 		}
 	}
-	if err := b.whereClause(true); err != nil {
-		return err
-	}
-	return b.returning()
 }
 
-func (b *binder) delete() error {
-	b.st.kind = stDelete
-	if err := b.table(); err != nil {
-		return err
+func (b *binder) where(required bool) {
+	if b.acceptKw("where") {
+		b.st.where = b.orExpr()
+	} else if required {
+		fail("unsupported statement shape: WHERE clause expected at %v in: %s", b.peek(), oneLine(b.st.sql))
 	}
-	if err := b.whereClause(true); err != nil {
-		return err
-	}
-	return b.returning()
 }
 
-// copyIn parses `COPY "t" ("c", ...) FROM STDIN`.
-func (b *binder) copyIn() error {
-	b.st.kind = stCopy
-	if err := b.table(); err != nil {
-		return err
+func (b *binder) orExpr() *cond {
+	l := b.andExpr()
+	for b.acceptKw("or") {
+		l = &cond{kind: cOr, l: l, r: b.andExpr()}
 	}
-	names, err := b.p.identList(true, "a column name")
-	if err != nil {
-		return err
-	}
-	if b.st.cols, err = b.columns(names, true); err != nil {
-		return err
-	}
-	return b.p.expectKw("from", "stdin")
+	return l
 }
 
-func (b *binder) whereClause(required bool) (err error) {
-	if !b.p.acceptKw("where") {
-		if required {
-			return errf("unsupported statement shape: WHERE clause expected at %v in: %s", b.p.peek(), oneLine(b.st.sql))
+func (b *binder) andExpr() *cond {
+	l := b.primary()
+	for b.acceptKw("and") {
+		l = &cond{kind: cAnd, l: l, r: b.primary()}
+	}
+	return l
+}
+
+// primary reads `( cond )`, `$n IS NULL`, `c IS NULL`, `c = ANY($n)`, `c = $n` or `c = constant`.
+func (b *binder) primary() *cond {
+	t := b.peek()
+	switch {
+	case b.acceptPunct("("):
+		c := b.orExpr()
+		b.expectPunct(")")
+		return c
+	case t.kind == tParam:
+		b.next()
+		if !b.acceptKw("is", "null") {
+			b.unexpected("IS NULL after a placeholder (unsupported condition)")
 		}
-		return nil
+		b.param(t.n, nil, "")
+		return &cond{kind: cParamNull, rhs: operand{param: t.n}}
+	case t.kind == tIdent && (t.s == "not" || t.s == "exists" || t.s == "true" || t.s == "false" || t.s == "null"):
+		b.unexpected("a column name (unsupported condition)")
 	}
-	b.st.where, err = b.orExpr()
-	return err
-}
-
-func (b *binder) orExpr() (*cond, error) {
-	l, err := b.andExpr()
-	for err == nil && b.p.acceptKw("or") {
-		var r *cond
-		if r, err = b.andExpr(); err == nil {
-			l = &cond{kind: cOr, l: l, r: r}
-		}
-	}
-	return l, err
-}
-
-func (b *binder) andExpr() (*cond, error) {
-	l, err := b.primary()
-	for err == nil && b.p.acceptKw("and") {
-		var r *cond
-		if r, err = b.primary(); err == nil {
-			l = &cond{kind: cAnd, l: l, r: r}
-		}
-	}
-	return l, err
-}
-
-func (b *binder) primary() (*cond, error) {
-	p := b.p
-	if p.acceptPunct("(") {
-		c, err := b.orExpr()
-		if err != nil {
-			return nil, err
-		}
-		return c, p.expectPunct(")")
-	}
-	if t := p.peek(); t.kind == tParam {
-		p.next()
-		if !p.acceptKw("is", "null") {
-			return nil, p.unexpected("IS NULL after a placeholder (unsupported condition)")
-		}
-		return &cond{kind: cParamNull, rhs: operand{param: t.n}}, b.param(t.n, nil, "")
-	}
-	if t := p.peek(); t.kind == tIdent && (t.s == "not" || t.s == "exists" || t.s == "true" || t.s == "false" || t.s == "null") {
-		return nil, p.unexpected("a column name (unsupported condition)")
-	}
-	name, err := p.ident("a column name")
-	if err != nil {
-		return nil, err
-	}
-	ci, err := b.column(name)
-	if err != nil {
-		return nil, err
-	}
+	ci := b.column(b.ident("a column name"))
 	col := b.st.tbl.cols[ci]
-	if p.acceptKw("is", "null") {
-		return &cond{kind: cColNull, col: ci}, nil
+	if b.acceptKw("is", "null") {
+		return &cond{kind: cColNull, col: ci}
 	}
-	if !p.acceptPunct("=") {
-		return nil, p.unexpected(`"=" or IS NULL (unsupported condition)`)
+	if !b.acceptPunct("=") {
+		b.unexpected(`"=" or IS NULL (unsupported condition)`)
 	}
-	if p.acceptKw("any") {
-		if err := p.expectPunct("("); err != nil {
-			return nil, err
-		}
-		t := p.next()
+	if b.acceptKw("any") {
+		b.expectPunct("(")
+		t := b.next()
 		if t.kind != tParam {
-			return nil, errf("unsupported condition: ANY(%v), only ANY($n) is supported", t)
+			fail("unsupported condition: ANY(%v), only ANY($n) is supported", t)
 		}
 		if col.typ.kind == kArray || col.typ.kind == kComposite {
-			return nil, errf("vsql limitation: = ANY() on column %q of type %s", col.name, col.typ.text)
+			fail("vsql limitation: = ANY() on column %q of type %s", col.name, col.typ.text)
 		}
-		arr := &sqlType{kind: kArray, text: col.typ.text + "[]", elem: col.typ}
-		if err := b.param(t.n, arr, col.name); err != nil {
-			return nil, err
-		}
-		return &cond{kind: cAny, col: ci, rhs: operand{param: t.n}}, p.expectPunct(")")
+		b.param(t.n, &sqlType{kind: kArray, text: col.typ.text + "[]", elem: col.typ}, col.name)
+		b.expectPunct(")")
+		return &cond{kind: cAny, col: ci, rhs: operand{param: t.n}}
 	}
-	if lit := p.peek(); lit.kind == tNum && col.typ.kind != kInt2 && col.typ.kind != kInt4 && col.typ.kind != kReal {
-		return nil, errf("operator does not exist: %s = integer (column %q compared to %s)", col.typ.text, col.name, lit.s)
+	if lit := b.peek(); lit.kind == tNum && col.typ.kind != kInt2 && col.typ.kind != kInt4 && col.typ.kind != kReal {
+		fail("operator does not exist: %s = integer (column %q compared to %s)", col.typ.text, col.name, lit.s)
 	}
-	op, err := b.operand(ci)
-	return &cond{kind: cEq, col: ci, rhs: op}, err
+	return &cond{kind: cEq, col: ci, rhs: b.operand(ci)}
 }
